@@ -7,7 +7,8 @@ Model: `RedunModel.Model.Db` (`_get_call_node`, `record_call_node` statement by 
 Full-strength statement (`history_shallow_sound`): in every database state reachable by ANY history of recording
 operations, process deaths at ANY commit point, restarts, cache hits and record imports, a shallow hit on call node
 `n` implies that every call node reachable from `n` through recorded child edges has a task hash that is in the
-current registry.  It is proved for every `Variant` with `cseSubtreeFromDb` and `emptyNotCurrent` — atomicity of
+current registry.  Jobs that record no provenance (prov=False, `no_prov`) are part of the histories
+(`Hist.resolveNoProv`): they write nothing but hand their subtree set to their parent.  It is proved for every `Variant` with `cseSubtreeFromDb` and `emptyNotCurrent` — atomicity of
 `record_call_node` is NOT needed: the two-commit code can leave a node with an EMPTY set behind, which is never served.  For `Variant.current` (the unrepaired tree) the statement is false: four closed witnesses
 (`refuted_crash`, `refuted_retry`, `refuted_transfer`, `refuted_cse_twin`).
 -/
@@ -146,9 +147,10 @@ theorem record_crash_safe (v : Variant) (a : CallArgs) (s : Sess)
 
 /-! ### the scheduler's bookkeeping -/
 
-/-- what the parent may assume about a finished child job -/
+/-- what the parent may assume about a finished child job: IF its call hash names a recorded call node (a job that
+records no provenance has a call hash but no node), its set covers everything recorded at or beneath that node -/
 def GoodRes (db : Db) (r : JobRes) : Prop :=
-  ∀ c, r.call = some c → hasNode db c = true ∧ Covers db c r.sub
+  ∀ c, r.call = some c → hasNode db c = true → Covers db c r.sub
 
 /-- collision freedom of `hash_call_node`, as far as it is needed: an already recorded node with this call hash
 has this task and only child edges to this job's children -/
@@ -162,21 +164,22 @@ theorem mem_execSubtree {task : H} {children : List JobRes} {r : JobRes} {t : H}
 
 /-- `calc_subtree_tasks` covers every recorded child -/
 theorem exec_covers_children (db : Db) (task : H) (children : List JobRes) (hgood : ∀ r ∈ children, GoodRes db r) :
-    ∀ ch ∈ children.filterMap (·.call), Covers db ch (execSubtree task children) := by
-  intro ch hmem d m hr hm hmd
+    ∀ ch ∈ children.filterMap (·.call), hasNode db ch = true → Covers db ch (execSubtree task children) := by
+  intro ch hmem hnd d m hr hm hmd
   simp only [List.mem_filterMap] at hmem
   obtain ⟨r, hrmem, hrc⟩ := hmem
-  exact mem_execSubtree hrmem (by simp [hrc]) ((hgood r hrmem ch hrc).2 d m hr hm hmd)
+  exact mem_execSubtree hrmem (by simp [hrc]) (hgood r hrmem ch hrc hnd d m hr hm hmd)
 
 /-- ... and, if the node is already recorded, the node itself (needs `MerkleOK`) -/
 theorem exec_covers_self (db : Db) (c task : H) (children : List JobRes) (hgood : ∀ r ∈ children, GoodRes db r)
+    (hec : EdgesClosed db)
     (hm : MerkleOK db c task (children.filterMap (·.call))) : Covers db c (execSubtree task children) := by
   intro d m hr hmn hmd
   cases hr with
   | refl _ => rw [hm.1 m hmn hmd]; simp [execSubtree]
   | step e he hp hc hr' =>
     have := hm.2 e he hp
-    exact exec_covers_children db task children hgood e.child this d m (hc ▸ hr') hmn hmd
+    exact exec_covers_children db task children hgood e.child this (hec e he).2 d m (hc ▸ hr') hmn hmd
 
 /-- extensions that add new nodes and edges leaving new nodes keep what is known about old nodes -/
 theorem covers_ext {db d : Db} {ns : List NodeRow} {es : List EdgeRow} {c : H} {S : List H}
@@ -197,27 +200,34 @@ theorem hasNode_ext {db d : Db} {ns : List NodeRow} (hn : d.nodes = db.nodes ++ 
 theorem goodRes_ext {db d : Db} {ns : List NodeRow} {es : List EdgeRow} {r : JobRes}
     (hn : d.nodes = db.nodes ++ ns) (he : d.edges = db.edges ++ es)
     (hnew : ∀ n ∈ ns, hasNode db n.call = false) (hes : ∀ e ∈ es, hasNode db e.parent = false)
-    (hec : EdgesClosed db) (h : GoodRes db r) : GoodRes d r := by
-  intro c hc
-  have := h c hc
-  exact ⟨hasNode_ext hn this.1, covers_ext hn he hnew hes hec this.1 this.2⟩
+    (hec : EdgesClosed db) (hfresh : ∀ n ∈ ns, r.call ≠ some n.call) (h : GoodRes db r) : GoodRes d r := by
+  intro c hc hnd
+  have hold : hasNode db c = true := by
+    simp only [hasNode, hn, List.any_append, Bool.or_eq_true, List.any_eq_true, beq_iff_eq] at hnd
+    rcases hnd with h1 | ⟨n, hmem, hcn⟩
+    · simpa [hasNode] using h1
+    · exact absurd (hcn ▸ hc) (hfresh n hmem)
+  exact covers_ext hn he hnew hes hec hold (h c hc hold)
 
 theorem goodRes_of_snap {v : Variant} {a : CallArgs} {db0 d : Db} {r : JobRes} (hI : GraphInv db0)
-    (_hacyc : a.node.call ∉ a.children) (h : CallNodeSnap v a db0 d) (hg : GoodRes db0 r) : GoodRes d r := by
+    (_hacyc : a.node.call ∉ a.children) (hfr : hasNode db0 a.node.call = false → r.call ≠ some a.node.call)
+    (h : CallNodeSnap v a db0 d) (hg : GoodRes db0 r) : GoodRes d r := by
   rcases h with h | h | h
   · have hg' := G_eq h
-    exact goodRes_ext (ns := []) (es := []) (by simp [hg'.1]) (by simp [hg'.2.1]) (by simp) (by simp) hI.edges hg
+    exact goodRes_ext (ns := []) (es := []) (by simp [hg'.1]) (by simp [hg'.2.1]) (by simp) (by simp) hI.edges
+      (by simp) hg
   · obtain ⟨hnew, hn, he, _⟩ := h
-    refine goodRes_ext hn he (by simpa using hnew) ?_ hI.edges hg
+    refine goodRes_ext hn he (by simpa using hnew) ?_ hI.edges (by simpa using hfr hnew) hg
     intro e hmem
     rw [(mem_edgeRows hmem).1]; exact hnew
   · obtain ⟨_, _, _, hn, he, _⟩ := h
-    exact goodRes_ext (ns := []) (es := []) (by simp [hn]) (by simp [he]) (by simp) (by simp) hI.edges hg
+    exact goodRes_ext (ns := []) (es := []) (by simp [hn]) (by simp [he]) (by simp) (by simp) hI.edges (by simp) hg
 
 theorem goodRes_of_bare {a : CallArgs} {db0 d : Db} {r : JobRes} (hI : GraphInv db0)
+    (hfr : hasNode db0 a.node.call = false → r.call ≠ some a.node.call)
     (h : CallNodeBare a db0 d) (hg : GoodRes db0 r) : GoodRes d r := by
   obtain ⟨hnew, hn, he, _⟩ := h
-  refine goodRes_ext hn he (by simpa using hnew) ?_ hI.edges hg
+  refine goodRes_ext hn he (by simpa using hnew) ?_ hI.edges (by simpa using hfr hnew) hg
   intro e hmem
   rw [(mem_edgeRows hmem).1]; exact hnew
 
@@ -248,8 +258,17 @@ inductive Hist (v : Variant) : Db → List JobRes → Prop
       (∀ r ∈ children, r ∈ res) →
       node.call ∉ children.filterMap (·.call) →
       (hasNode db node.call = true → MerkleOK db node.call node.task (children.filterMap (·.call))) →
+      -- a call hash this process already handed to a parent (by a job that records no provenance) is not recorded
+      -- as a NEW node afterwards
+      (hasNode db node.call = false → ∀ r ∈ res, r.call ≠ some node.call) →
       Hist v (recordCallNode v ⟨node, children.filterMap (·.call), args, execSubtree node.task children⟩ (.ofDb db)).db
         (res ++ [⟨some node.call, execSubtree node.task children⟩])
+  /-- a job that records NO provenance (prov=False, `no_prov`) resolves: nothing is written, but it has a call
+  hash and hands `calc_subtree_tasks` over its finished children to its parent like any other job -/
+  | resolveNoProv {db res} (task c : H) (children : List JobRes) : Hist v db res →
+      (∀ r ∈ children, r ∈ res) →
+      (hasNode db c = true → MerkleOK db c task (children.filterMap (·.call))) →
+      Hist v db (res ++ [⟨some c, execSubtree task children⟩])
   /-- ... or the process dies at one of its commits -/
   | resolveCrash {db res} (node : NodeRow) (children : List JobRes) (args : List ArgSpec) (d : Db) : Hist v db res →
       (∀ r ∈ children, r ∈ res) →
@@ -267,7 +286,7 @@ inductive Hist (v : Variant) : Db → List JobRes → Prop
       Hist v db (res ++ [⟨some c, cachedSubtree v db reg task shallow c⟩])
   /-- push / pull / import of a child-closed set of records -/
   | imp {db res} (rs : List Rec) : Hist v db res → EdgesClosed (putRecords rs (.ofDb db)).db →
-      Hist v (putRecords rs (.ofDb db)).db res
+      Hist v (putRecords rs (.ofDb db)).db []
 
 theorem frame_step {db d : Db} {res : List JobRes} {s' : Sess} (hI : GraphInv db ∧ ∀ r ∈ res, GoodRes db r)
     (hg : G s'.view = G db) (hlog : ∀ snap ∈ s'.log, snap ∈ ([] : List Snap) ∨ G snap.db = G db) (hp : s'.pend = [])
@@ -283,15 +302,15 @@ theorem frame_step {db d : Db} {res : List JobRes} {s' : Sess} (hI : GraphInv db
   have hg' := G_eq hgd
   have := inv_frame hg'.1 hg'.2.1 hg'.2.2
   refine ⟨⟨this.1 hI.1.inv, this.2.1 hI.1.edges, this.2.2 hI.1.subs⟩, fun r hr => ?_⟩
-  exact goodRes_ext (ns := []) (es := []) (by simp [hg'.1]) (by simp [hg'.2.1]) (by simp) (by simp) hI.1.edges (hI.2 r hr)
+  exact goodRes_ext (ns := []) (es := []) (by simp [hg'.1]) (by simp [hg'.2.1]) (by simp) (by simp) hI.1.edges
+    (by simp) (hI.2 r hr)
 
 theorem cached_good {v : Variant} {db : Db} {reg : List H} {task c : H} {shallow : Bool}
-    (hv : v.cseSubtreeFromDb = true) (hI : GraphInv db) (hn : hasNode db c = true) (hne : subtreeOf db c ≠ [])
+    (hv : v.cseSubtreeFromDb = true) (hI : GraphInv db) (_hn : hasNode db c = true) (hne : subtreeOf db c ≠ [])
     (hreg : ∀ t ∈ subtreeOf db c, t ∈ reg) : GoodRes db ⟨some c, cachedSubtree v db reg task shallow c⟩ := by
-  intro c' hc'
+  intro c' hc' _ d m hr hm hmd
   simp only [Option.some.injEq] at hc'
   subst hc'
-  refine ⟨hn, fun d m hr hm hmd => ?_⟩
   have := hI.inv c d m hne hr hm hmd
   simp only [cachedSubtree, hv, if_true, List.mem_cons, List.mem_filter]
   exact Or.inr ⟨this, by simpa using hreg _ this⟩
@@ -315,7 +334,7 @@ theorem hist_inv (v : Variant) (hc : v.cseSubtreeFromDb = true)
   | @jobEnd db res id call cached d _ hd ih =>
     have h := recordJobEnd_graph id call cached (.ofDb db)
     exact frame_step ih h.1 (fun snap hs => h.2.1 snap hs) h.2.2 hd
-  | @resolve db res node children args _ hch hacyc hmerkle ih =>
+  | @resolve db res node children args _ hch hacyc hmerkle hfresh ih =>
     have hgood : ∀ r ∈ children, GoodRes db r := fun r hr => ih.2 r (hch r hr)
     have hat := recordCallNode_shapes v ⟨node, children.filterMap (·.call), args, execSubtree node.task children⟩
       (.ofDb db) rfl
@@ -323,14 +342,14 @@ theorem hist_inv (v : Variant) (hc : v.cseSubtreeFromDb = true)
     have hown : node.task ∈ execSubtree node.task children := by simp [execSubtree]
     have hI' := graphInv_of_snap (a := ⟨node, children.filterMap (·.call), args, execSubtree node.task children⟩)
       ih.1 hown hacyc
-      (fun ch hmem _ => exec_covers_children db node.task children hgood ch hmem)
-      (fun hn => exec_covers_self db node.call node.task children hgood (hmerkle hn)) hsnap
+      (fun ch hmem hnd => exec_covers_children db node.task children hgood ch hmem hnd)
+      (fun hn => exec_covers_self db node.call node.task children hgood ih.1.edges (hmerkle hn)) hsnap
     refine ⟨hI', fun r hr => ?_⟩
     rw [List.mem_append, List.mem_singleton] at hr
     rcases hr with hr | hr
-    · exact goodRes_of_snap ih.1 hacyc hsnap (ih.2 r hr)
+    · exact goodRes_of_snap ih.1 hacyc (fun hn => hfresh hn r hr) hsnap (ih.2 r hr)
     · subst hr
-      intro c hcc
+      intro c hcc _
       simp only [Option.some.injEq] at hcc
       subst hcc
       -- the node exists afterwards, and the set just computed covers it
@@ -340,7 +359,7 @@ theorem hist_inv (v : Variant) (hc : v.cseSubtreeFromDb = true)
         have hs := h1 hn
         have hnode' : hasNode (recordCallNode v ⟨node, children.filterMap (·.call), args, execSubtree node.task children⟩ (.ofDb db)).db node.call = true := by
           simp [hasNode, hs.1]
-        refine ⟨hnode', fun d m hr hm hmd => ?_⟩
+        intro d m hr hm hmd
         have hrows : subtreeOf (recordCallNode v ⟨node, children.filterMap (·.call), args, execSubtree node.task children⟩ (.ofDb db)).db node.call
             = execSubtree node.task children := by
           have h0 : subtreeOf db node.call = [] := subtreeOf_nil_of_not_node ih.1.subs hn
@@ -348,10 +367,11 @@ theorem hist_inv (v : Variant) (hc : v.cseSubtreeFromDb = true)
         have := hI'.inv node.call d m (by rw [hrows]; simp [execSubtree]) hr hm hmd
         rw [hrows] at this; exact this
       | true =>
-        have hcov := exec_covers_self db node.call node.task children hgood (hmerkle hn)
+        have hcov := exec_covers_self db node.call node.task children hgood ih.1.edges (hmerkle hn)
         have hg : GoodRes db ⟨some node.call, execSubtree node.task children⟩ := by
-          intro c hcc; simp only [Option.some.injEq] at hcc; subst hcc; exact ⟨hn, hcov⟩
-        exact goodRes_of_snap ih.1 hacyc hsnap hg node.call rfl
+          intro c hcc _; simp only [Option.some.injEq] at hcc; subst hcc; exact hcov
+        exact goodRes_of_snap ih.1 hacyc (fun h0 => by rw [hn] at h0; cases h0) hsnap hg node.call rfl
+          (by rename_i hx; exact hx)
   | @resolveCrash db res node children args d _ hch hacyc hmerkle hd ih =>
     have hgood : ∀ r ∈ children, GoodRes db r := fun r hr => ih.2 r (hch r hr)
     have hat := recordCallNode_shapes v ⟨node, children.filterMap (·.call), args, execSubtree node.task children⟩
@@ -366,8 +386,19 @@ theorem hist_inv (v : Variant) (hc : v.cseSubtreeFromDb = true)
         ih.1 hacyc h, fun r hr => by cases hr⟩
     · exact ⟨graphInv_of_snap (a := ⟨node, children.filterMap (·.call), args, execSubtree node.task children⟩)
         ih.1 hown hacyc
-        (fun ch hmem _ => exec_covers_children db node.task children hgood ch hmem)
-        (fun hn => exec_covers_self db node.call node.task children hgood (hmerkle hn)) h, fun r hr => by cases hr⟩
+        (fun ch hmem hnd => exec_covers_children db node.task children hgood ch hmem hnd)
+        (fun hn => exec_covers_self db node.call node.task children hgood ih.1.edges (hmerkle hn)) h, fun r hr => by cases hr⟩
+  | @resolveNoProv db res task c children _ hch hmerkle ih =>
+    have hgood : ∀ r ∈ children, GoodRes db r := fun r hr => ih.2 r (hch r hr)
+    refine ⟨ih.1, fun r hr => ?_⟩
+    rw [List.mem_append, List.mem_singleton] at hr
+    rcases hr with hr | hr
+    · exact ih.2 r hr
+    · subst hr
+      intro c' hcc hnd
+      simp only [Option.some.injEq] at hcc
+      subst hcc
+      exact exec_covers_self db c task children hgood ih.1.edges (hmerkle hnd)
   | @ultimateHit db res reg task args n _ hhit ih =>
     refine ⟨ih.1, fun r hr => ?_⟩
     rw [List.mem_append, List.mem_singleton] at hr
@@ -390,7 +421,7 @@ theorem hist_inv (v : Variant) (hc : v.cseSubtreeFromDb = true)
   | @imp db res rs _ hclosed ih =>
     obtain ⟨ns, es, hn, hee, hs, hnew, hes, _, _⟩ := putRecords_graph rs (.ofDb db) rfl
     have := inv_import hn hee hs hnew hes ih.1.edges ih.1.subs ih.1.inv
-    exact ⟨⟨this.1, hclosed, this.2⟩, fun r hr => goodRes_ext hn hee hnew hes ih.1.edges (ih.2 r hr)⟩
+    exact ⟨⟨this.1, hclosed, this.2⟩, fun r hr => by cases hr⟩
 
 /-- **C03, full strength, for the repaired code**: after ANY history (runs, edits — the registry is arbitrary —,
 process deaths at any commit, restarts, retries seen as death + re-run, record imports), a shallow hit implies
@@ -496,7 +527,7 @@ theorem refuted_cse_twin :
 /-- the repaired code reaches `dbSrc`-like states through `Hist`, and there the edited registry misses -/
 example : Hist .repaired (recordCallNode .repaired ⟨⟨21, 10, 1, 100, 1⟩, [], [⟨0, ⟨⟨1, .plain⟩, []⟩, []⟩], execSubtree 10 []⟩ (.ofDb {})).db
     ([] ++ [⟨some 21, execSubtree 10 []⟩]) :=
-  Hist.resolve ⟨21, 10, 1, 100, 1⟩ [] [⟨0, ⟨⟨1, .plain⟩, []⟩, []⟩] Hist.init (by simp) (by simp) (by intro h; cases h)
+  Hist.resolve ⟨21, 10, 1, 100, 1⟩ [] [⟨0, ⟨⟨1, .plain⟩, []⟩, []⟩] Hist.init (by simp) (by simp) (by intro h; cases h) (by simp)
 
 example : ∀ snap ∈ (recordCallNode .repaired callA (.ofDb db0)).log, getCallNode .repaired snap.db 10 1 regEdited = none := by
   decide
@@ -511,5 +542,11 @@ example : getCallNode .repaired (recordCallNode .repaired callA (.ofDb db0)).db 
 example : ∀ snap ∈ (recordCallNode .proposed callA (.ofDb db0)).log, getCallNode .proposed snap.db 10 1 regEdited = none := by
   decide
 example : (recordCallNode .proposed callA (.ofDb db0)).log.length = 2 := by decide
+
+/-- non-vacuity of `resolveNoProv`: report(10, records) -> stage(14, records nothing, call hash 30) -> fetch(11,
+node 20): the recording ancestor's set contains the task beneath the non-recording job -/
+example : Hist .proposed {} ([] ++ [⟨some 30, execSubtree 14 []⟩]) :=
+  Hist.resolveNoProv 14 30 [] Hist.init (by simp) (by intro h; cases h)
+example : (11 : H) ∈ execSubtree 10 [⟨some 30, execSubtree 14 [⟨some 20, [11]⟩]⟩] := by decide
 
 end RedunModel.C03
